@@ -401,8 +401,15 @@ static int dispatch(TcpAsyncCtx *tcpCtx) {
 		}
 
 		if (req->state != KSI_ASYNC_STATE_WAITING_FOR_DISPATCH) {
+			bool partiallySent = (req->sentCount > 0);
 			/* The state could have been changed in application layer. Just remove the request from the request queue. */
 			KSI_AsyncHandleList_remove(tcpCtx->reqQueue, 0, NULL);
+			if (partiallySent) {
+				/* The stream is left in the middle of a PDU, the connection can not be used any more. */
+				closeSocket(tcpCtx, __LINE__);
+				res = KSI_ASYNC_CONNECTION_CLOSED;
+				goto cleanup;
+			}
 			continue;
 		}
 
